@@ -183,8 +183,8 @@ def rand_order(rng, i, ts, zero_ok=True):
     if kind == "Iceberg":
         return order(i, kind, vis, rng.choice([0, 1, 2, 5, 9]), ts=ts, side=side, par=tif)
     if kind == "Reserve":
-        amt = rng.choice([-1, -1, 0, 1, 2, 5, 100])
-        hid = rng.choice([0, 1, 3, 7, 79, 80, 81, 200]) if amt == -1 else rng.choice([0, 1, 3, 7, 12])
+        amt = rng.choice([-1, -1, 0, 1, 2, 5, 80, 100])      # 80 = the library's default amount, given explicitly
+        hid = rng.choice([0, 1, 3, 7, 79, 80, 81, 200]) if amt in (-1, 80) else rng.choice([0, 1, 3, 7, 12])
         return order(i, kind, vis, hid, rng.choice([0, 0, 1, 2, 3]), amt, rng.chance(2, 3), ts=ts, side=side, par=tif)
     if kind == "TrailingStop":
         return order(i, kind, vis, ts=ts, side=side, par="%s|%d|%d" % (tif, rng.range(0, 9), rng.range(90, 110)))
